@@ -70,8 +70,17 @@ pub fn set_scenario(name: &str) {
 pub fn start(prop: &str, tier: &str, level: &str) {
     *CONTEXT.lock().unwrap() = Some((prop.to_string(), tier.to_string(), level.to_string(), String::new()));
     let limit = Duration::from_secs(std::env::var("VERIF_HANG_S").ok().and_then(|x| x.parse().ok()).unwrap_or(if tier == "quick" { 20 } else { 90 }));
+    // backstop: a check that is still running long after its budget (harness code that is pathologically slow on this
+    // tree) ends as a machinery failure instead of running for hours
+    let started = Instant::now();
+    let budget: u64 = std::env::var("VERIF_BUDGET_S").ok().and_then(|x| x.parse().ok()).unwrap_or(if tier == "quick" { 50 } else { 1200 });
+    let hard = Duration::from_secs(budget * 3 + 120);
     std::thread::spawn(move || loop {
         std::thread::sleep(Duration::from_millis(500));
+        if started.elapsed() > hard {
+            eprintln!("MACHINERY FAILURE (not a verdict): the check is still running {} s after its start (budget {} s); giving up", started.elapsed().as_secs(), budget);
+            std::process::exit(2);
+        }
         let slots: Vec<_> = SLOTS.lock().unwrap().iter().cloned().collect();
         for s in slots {
             let (since, hist) = {
